@@ -143,7 +143,7 @@ def plan(tier, seed):
                 ts = datetime.combine(d, tod).isoformat()
                 for f in canonf:
                     yield ("B",) + f + (ts,)
-        # product C: omitted reference time (datetime.now substituted) for one form per kind x EDGE_TS
+        # product C: omitted reference time (the datetime class seen by the library is substituted by a clock in a UTC+9 zone) for one form per kind x EDGE_TS
         seen = set()
         for f in canonf:
             if f[0] in seen:
@@ -173,9 +173,23 @@ def run_case(case):
         m = lib()[2]
         real = m.datetime
 
+        from datetime import timezone
+
         class FakeDT(real):
+            """the clock of a machine whose local time is `ts` in a zone 9 hours ahead of UTC"""
+
             @classmethod
             def now(cls, tz=None):
+                if tz is None:
+                    return ts
+                return (ts - timedelta(hours=9)).replace(tzinfo=timezone.utc).astimezone(tz)
+
+            @classmethod
+            def utcnow(cls):
+                return ts - timedelta(hours=9)
+
+            @classmethod
+            def today(cls):
                 return ts
 
         m.datetime = FakeDT
